@@ -142,14 +142,20 @@ impl MoveGen {
 
     /// Never, ever, iterate this move
     pub fn remove_move(&mut self, chess_move: ChessMove) -> bool {
-        for x in 0..self.moves.len() {
-            if self.moves[x].src == chess_move.source && self.moves[x].promotion == chess_move.piece
+        let mut removed = false;
+
+        // a pawn that can also capture en passant has two entries for the same source
+        for legals in &mut self.moves {
+            if legals.src == chess_move.source
+                && legals.promotion == chess_move.piece
+                && legals.moves.contains(chess_move.dest)
             {
-                self.moves[x].moves -= chess_move.dest;
-                return true;
+                legals.moves -= chess_move.dest;
+                removed = true;
             }
         }
-        false
+
+        removed
     }
 
     pub fn set_mask(&mut self, mask: BitBoard) {
